@@ -23,7 +23,14 @@ type c06Step struct {
 	Kind string `json:"kind"`  // "K" remote KEEPALIVE, "U" remote UPDATE, "W" local WriteUpdate
 }
 
+// c06Prev is an earlier session of the same peer, ended without damping.
+type c06Prev struct {
+	RemoteHold uint16 `json:"remote_hold"`
+	End        string `json:"end"` // fin, cease
+}
+
 type c06Case struct {
+	Prev       []c06Prev `json:"prev,omitempty"`
 	LocalHold  int       `json:"local_hold"`
 	RemoteHold uint16    `json:"remote_hold"`
 	Out        bool      `json:"out"`
@@ -44,7 +51,7 @@ func c06Prop(t *testing.T, r *hx.Run, sub string) func(c c06Case) hx.Verdict {
 	return func(c c06Case) hx.Verdict {
 		r.SetCurrent(sub, c)
 		H := c.H()
-		v := hx.Verdict{Class: fmt.Sprintf("H=%s/%s/openconfirm=%v", hClass(H), c.Pattern, c.OpenConf)}
+		v := hx.Verdict{Class: fmt.Sprintf("H=%s/%s/openconfirm=%v/prev=%d", hClass(H), c.Pattern, c.OpenConf, len(c.Prev))}
 		p := basePeer(c.Out)
 		p.Hold = c.LocalHold
 		var dev *hx.Dev
@@ -54,200 +61,256 @@ func c06Prop(t *testing.T, r *hx.Run, sub string) func(c c06Case) hx.Verdict {
 			}
 		}
 		timerEvent := false
-		o, serr := world.Single(t, "10.0.0.1", p, c.Out, nil, func(w *world.World, conn *memnet.Conn) {
-			// hold field of corebgp's OPEN
-			pre, _ := world.Parsed(conn)
-			if len(pre) != 1 || pre[0].Type != wire.TypeOpen {
-				fail("setup", "no OPEN from corebgp")
+		p.IdleHoldMs, p.ConnRetryMs = 100, 1000
+		var serr error
+		o := world.Run(t, func() {
+			w, err := world.New("10.0.0.1", nil)
+			if err != nil {
+				serr = err
 				return
 			}
-			if op, err := wire.ParseOpenStrict(pre[0].Body); err != nil || int(op.Hold) != c.LocalHold {
-				fail("open-hold-field", "corebgp's OPEN proposes hold %d, configured %d (%v)", op.Hold, c.LocalHold, err)
+			defer w.Finish()
+			if c.Out {
+				w.Net.SetPlans(p.RemoteAddr(), memnet.DialPlan{Kind: memnet.Accept})
+			}
+			if err := w.AddPeer(p); err != nil {
+				serr = err
 				return
 			}
-			// received[] = virtual times at which corebgp was handed something
-			var received []time.Duration
-			now := func() time.Duration { return w.Net.Since() }
-			conn.RemoteSend(world.RemoteOpen(p, conn, c.RemoteHold, 0x0a000002).Frame(), nil)
-			received = append(received, now())
+			w.Serve()
 			w.Settle()
-			if !c.OpenConf {
-				conn.RemoteSend(wire.Keepalive(), nil)
+			getConn := func(k int) *memnet.Conn {
+				if !c.Out {
+					cn := w.Inbound(p.Remote, "10.0.0.1")
+					w.Settle()
+					return cn
+				}
+				if !w.Net.WaitDials(k+1, 5*time.Second) {
+					return nil
+				}
+				w.Settle()
+				return w.Net.Dials()[k].Conn
+			}
+			// earlier sessions of the same peer, each ended by a TCP close or a Cease
+			for k, pv := range c.Prev {
+				cn := getConn(k)
+				if cn == nil {
+					fail("setup", "no connection for earlier session %d", k)
+					return
+				}
+				world.Handshake(w, p, cn, pv.RemoteHold, 0x0a000002)
+				if w.Sessions(p.Remote) != k+1 {
+					fail("not-established", "earlier session %d (remote hold %d, local %d) did not establish", k, pv.RemoteHold, c.LocalHold)
+					return
+				}
+				if pv.End == "cease" {
+					cn.RemoteSend(wire.Notif{Code: 6, Sub: 4}.Frame(), nil)
+					w.Settle()
+				}
+				cn.RemoteClose()
+				w.Settle()
+			}
+			conn := getConn(len(c.Prev))
+			if conn == nil {
+				fail("setup", "no connection for the session under test")
+				return
+			}
+			func() {
+				// hold field of corebgp's OPEN
+				pre, _ := world.Parsed(conn)
+				if len(pre) != 1 || pre[0].Type != wire.TypeOpen {
+					fail("setup", "no OPEN from corebgp")
+					return
+				}
+				if op, err := wire.ParseOpenStrict(pre[0].Body); err != nil || int(op.Hold) != c.LocalHold {
+					fail("open-hold-field", "corebgp's OPEN proposes hold %d, configured %d (%v)", op.Hold, c.LocalHold, err)
+					return
+				}
+				// received[] = virtual times at which corebgp was handed something
+				var received []time.Duration
+				now := func() time.Duration { return w.Net.Since() }
+				conn.RemoteSend(world.RemoteOpen(p, conn, c.RemoteHold, 0x0a000002).Frame(), nil)
 				received = append(received, now())
 				w.Settle()
-				est := 0
-				for _, e := range w.Rec.Events() {
-					if e.K == "est+" {
-						est++
-					}
-				}
-				if est != 1 {
-					fail("not-established", "hold times local=%d remote=%d: session did not establish (OnEstablished x%d)", c.LocalHold, c.RemoteHold, est)
-					return
-				}
-			}
-			ended := func() bool { return conn.Snapshot().LocalClosed }
-			nUpd := 0
-			var lastSentUpd []byte
-			for _, s := range c.Steps {
-				if c.OpenConf {
-					break
-				}
-				time.Sleep(time.Duration(s.DtNs))
-				w.Settle()
-				if ended() {
-					break
-				}
-				switch s.Kind {
-				case "K":
+				if !c.OpenConf {
 					conn.RemoteSend(wire.Keepalive(), nil)
 					received = append(received, now())
-				case "U":
-					lastSentUpd = taggedUpdate(uint32(0xF0000000+nUpd), 9)
-					nUpd++
-					conn.RemoteSend(wire.Frame(wire.TypeUpdate, lastSentUpd), nil)
-					received = append(received, now())
-				case "W":
-					w.WriteUpdate(p.Remote, 0, 1, taggedUpdate(0x77000000, 5))
+					w.Settle()
+					est := 0
+					for _, e := range w.Rec.Events() {
+						if e.K == "est+" {
+							est++
+						}
+					}
+					if est != len(c.Prev)+1 {
+						fail("not-established", "hold times local=%d remote=%d: session did not establish (OnEstablished x%d, want %d)", c.LocalHold, c.RemoteHold, est, len(c.Prev)+1)
+						return
+					}
 				}
-				w.Settle()
-			}
-			last := received[len(received)-1]
-			// silence until well past the expiry point
-			horizon := 3*H + 5*time.Second
-			if H == 0 {
-				horizon = time.Hour + 10*time.Minute
-			}
-			w.Advance(horizon)
+				ended := func() bool { return conn.Snapshot().LocalClosed }
+				nUpd := 0
+				var lastSentUpd []byte
+				for _, s := range c.Steps {
+					if c.OpenConf {
+						break
+					}
+					time.Sleep(time.Duration(s.DtNs))
+					w.Settle()
+					if ended() {
+						break
+					}
+					switch s.Kind {
+					case "K":
+						conn.RemoteSend(wire.Keepalive(), nil)
+						received = append(received, now())
+					case "U":
+						lastSentUpd = taggedUpdate(uint32(0xF0000000+nUpd), 9)
+						nUpd++
+						conn.RemoteSend(wire.Frame(wire.TypeUpdate, lastSentUpd), nil)
+						received = append(received, now())
+					case "W":
+						w.WriteUpdate(p.Remote, len(c.Prev), 1, taggedUpdate(0x77000000, 5))
+					}
+					w.Settle()
+				}
+				last := received[len(received)-1]
+				// silence until well past the expiry point
+				horizon := 3*H + 5*time.Second
+				if H == 0 {
+					horizon = time.Hour + 10*time.Minute
+				}
+				w.Advance(horizon)
 
-			st := conn.Snapshot()
-			msgs, perr := wire.ParseStream(st.Bytes())
-			if perr != nil {
-				fail("malformed-output", "%v", perr)
-				return
-			}
-			// times of messages sent by corebgp: one Write per message is not
-			// assumed - locate each message's last byte in the write log
-			type sentMsg struct {
-				at  time.Duration
-				typ uint8
-				n   wire.Notif
-			}
-			var sent []sentMsg
-			{
-				var ends []int // cumulative byte offsets of writes
-				var ats []time.Duration
-				off := 0
-				for _, wr := range st.Writes {
-					if wr.Failed {
-						continue
-					}
-					off += len(wr.Data)
-					ends = append(ends, off)
-					ats = append(ats, wr.At)
-				}
-				for _, m := range msgs {
-					endOff := m.Off + wire.HeaderLen + len(m.Body)
-					i := sort.SearchInts(ends, endOff)
-					sm := sentMsg{at: ats[i], typ: m.Type}
-					if m.Type == wire.TypeNotification {
-						sm.n, _ = wire.ParseNotif(m.Body)
-					}
-					sent = append(sent, sm)
-				}
-			}
-			var expiry *sentMsg
-			for i := range sent {
-				if sent[i].typ == wire.TypeNotification && sent[i].n.Code == 4 {
-					expiry = &sent[i]
-				}
-			}
-			if H == 0 {
-				if expiry != nil {
-					fail("expired-with-zero-hold", "hold time 0 (local %d, remote %d): session expired at %v", c.LocalHold, c.RemoteHold, expiry.at)
+				st := conn.Snapshot()
+				msgs, perr := wire.ParseStream(st.Bytes())
+				if perr != nil {
+					fail("malformed-output", "%v", perr)
 					return
 				}
-				if st.LocalClosed {
-					fail("closed-with-zero-hold", "hold time 0: connection closed at %v (last message type %d %v)", st.CloseAt, sent[len(sent)-1].typ, sent[len(sent)-1].n)
-					return
+				// times of messages sent by corebgp: one Write per message is not
+				// assumed - locate each message's last byte in the write log
+				type sentMsg struct {
+					at  time.Duration
+					typ uint8
+					n   wire.Notif
 				}
-				ka := 0
-				for _, s := range sent {
-					if s.typ == wire.TypeKeepalive {
-						ka++
+				var sent []sentMsg
+				{
+					var ends []int // cumulative byte offsets of writes
+					var ats []time.Duration
+					off := 0
+					for _, wr := range st.Writes {
+						if wr.Failed {
+							continue
+						}
+						off += len(wr.Data)
+						ends = append(ends, off)
+						ats = append(ats, wr.At)
+					}
+					for _, m := range msgs {
+						endOff := m.Off + wire.HeaderLen + len(m.Body)
+						i := sort.SearchInts(ends, endOff)
+						sm := sentMsg{at: ats[i], typ: m.Type}
+						if m.Type == wire.TypeNotification {
+							sm.n, _ = wire.ParseNotif(m.Body)
+						}
+						sent = append(sent, sm)
 					}
 				}
-				if ka != 1 {
-					fail("keepalives-with-zero-hold", "hold time 0: corebgp sent %d KEEPALIVEs over %v, want only the handshake one", ka, horizon)
-					return
-				}
-				// still alive: an UPDATE sent now is delivered
-				probe := taggedUpdate(0xF1000000, 6)
-				conn.RemoteSend(wire.Frame(wire.TypeUpdate, probe), nil)
-				w.Settle()
-				ok := false
-				for _, e := range w.Rec.Events() {
-					if e.K == "upd+" && bytes.Equal(e.Data, probe) {
-						ok = true
+				var expiry *sentMsg
+				for i := range sent {
+					if sent[i].typ == wire.TypeNotification && sent[i].n.Code == 4 {
+						expiry = &sent[i]
 					}
 				}
-				if !ok {
-					fail("dead-with-zero-hold", "hold time 0: an UPDATE sent after %v of silence was not delivered", horizon)
+				if H == 0 {
+					if expiry != nil {
+						fail("expired-with-zero-hold", "hold time 0 (local %d, remote %d): session expired at %v", c.LocalHold, c.RemoteHold, expiry.at)
+						return
+					}
+					if st.LocalClosed {
+						fail("closed-with-zero-hold", "hold time 0: connection closed at %v (last message type %d %v)", st.CloseAt, sent[len(sent)-1].typ, sent[len(sent)-1].n)
+						return
+					}
+					ka := 0
+					for _, s := range sent {
+						if s.typ == wire.TypeKeepalive {
+							ka++
+						}
+					}
+					_ = nUpd
+					if ka != 1 {
+						fail("keepalives-with-zero-hold", "hold time 0: corebgp sent %d KEEPALIVEs over %v, want only the handshake one", ka, horizon)
+						return
+					}
+					// still alive: an UPDATE sent now is delivered
+					probe := taggedUpdate(0xF1000000, 6)
+					conn.RemoteSend(wire.Frame(wire.TypeUpdate, probe), nil)
+					w.Settle()
+					ok := false
+					for _, e := range w.Rec.Events() {
+						if e.K == "upd+" && bytes.Equal(e.Data, probe) {
+							ok = true
+						}
+					}
+					if !ok {
+						fail("dead-with-zero-hold", "hold time 0: an UPDATE sent after %v of silence was not delivered", horizon)
+					}
+					timerEvent = true
+					return
+				}
+				// H > 0
+				if expiry == nil {
+					fail("no-expiry", "H=%v: remote silent since %v, no Hold Timer Expired NOTIFICATION by %v (closed=%v)", H, last, w.Net.Since(), st.LocalClosed)
+					return
 				}
 				timerEvent = true
-				return
-			}
-			// H > 0
-			if expiry == nil {
-				fail("no-expiry", "H=%v: remote silent since %v, no Hold Timer Expired NOTIFICATION by %v (closed=%v)", H, last, w.Net.Since(), st.LocalClosed)
-				return
-			}
-			timerEvent = true
-			if expiry.at < last+H {
-				fail("expired-early", "H=%v (local %d, remote %d): last message received at %v, Hold Timer Expired sent at %v (%v early)", H, c.LocalHold, c.RemoteHold, last, expiry.at, last+H-expiry.at)
-				return
-			}
-			if expiry.at > last+H+time.Second {
-				fail("expired-late", "H=%v: last message received at %v, Hold Timer Expired only at %v", H, last, expiry.at)
-				return
-			}
-			if !st.LocalClosed || st.CloseAt > expiry.at+time.Second {
-				fail("expiry-not-closed", "connection not closed after Hold Timer Expired (closed=%v at %v)", st.LocalClosed, st.CloseAt)
-				return
-			}
-			if sent[len(sent)-1].typ != wire.TypeNotification || sent[len(sent)-1].n.Code != 4 {
-				fail("message-after-expiry", "messages were sent after the Hold Timer Expired NOTIFICATION")
-				return
-			}
-			nClose := 0
-			for _, e := range w.Rec.Events() {
-				if e.K == "close+" {
-					nClose++
-				}
-			}
-			if !c.OpenConf && nClose != 1 {
-				fail("expiry-onclose", "OnClose fired %d times after expiry", nClose)
-				return
-			}
-			// keepalive cadence: from the handshake KEEPALIVE to the end, no gap
-			// between consecutive KEEPALIVE/UPDATE sends (and to the expiry)
-			// longer than H/3 + max(100ms, H/30)
-			slack := H / 30
-			if slack < 100*time.Millisecond {
-				slack = 100 * time.Millisecond
-			}
-			bound := H/3 + slack
-			prev := time.Duration(-1)
-			for _, s := range sent {
-				if s.typ == wire.TypeOpen {
-					continue
-				}
-				if prev >= 0 && s.at-prev > bound {
-					fail("keepalive-gap", "H=%v: %v passed between consecutive messages sent by corebgp (at %v and %v), bound %v", H, s.at-prev, prev, s.at, bound)
+				if expiry.at < last+H {
+					fail("expired-early", "H=%v (local %d, remote %d): last message received at %v, Hold Timer Expired sent at %v (%v early)", H, c.LocalHold, c.RemoteHold, last, expiry.at, last+H-expiry.at)
 					return
 				}
-				prev = s.at
-			}
+				if expiry.at > last+H+time.Second {
+					fail("expired-late", "H=%v: last message received at %v, Hold Timer Expired only at %v", H, last, expiry.at)
+					return
+				}
+				if !st.LocalClosed || st.CloseAt > expiry.at+time.Second {
+					fail("expiry-not-closed", "connection not closed after Hold Timer Expired (closed=%v at %v)", st.LocalClosed, st.CloseAt)
+					return
+				}
+				if sent[len(sent)-1].typ != wire.TypeNotification || sent[len(sent)-1].n.Code != 4 {
+					fail("message-after-expiry", "messages were sent after the Hold Timer Expired NOTIFICATION")
+					return
+				}
+				nClose := 0
+				for _, e := range w.Rec.Events() {
+					if e.K == "close+" {
+						nClose++
+					}
+				}
+				if !c.OpenConf && nClose != len(c.Prev)+1 {
+					fail("expiry-onclose", "OnClose fired %d times after expiry", nClose)
+					return
+				}
+				// keepalive cadence: from the handshake KEEPALIVE to the end, no gap
+				// between consecutive KEEPALIVE/UPDATE sends (and to the expiry)
+				// longer than H/3 + max(100ms, H/30)
+				slack := H / 30
+				if slack < 100*time.Millisecond {
+					slack = 100 * time.Millisecond
+				}
+				bound := H/3 + slack
+				prev := time.Duration(-1)
+				for _, s := range sent {
+					if s.typ == wire.TypeOpen {
+						continue
+					}
+					if prev >= 0 && s.at-prev > bound {
+						fail("keepalive-gap", "H=%v: %v passed between consecutive messages sent by corebgp (at %v and %v), bound %v", H, s.at-prev, prev, s.at, bound)
+						return
+					}
+					prev = s.at
+				}
+			}()
 		})
 		if serr != nil {
 			fail("setup", "%v", serr)
@@ -256,7 +319,7 @@ func c06Prop(t *testing.T, r *hx.Run, sub string) func(c c06Case) hx.Verdict {
 			fail("wedge", "%s", b)
 		}
 		if timerEvent {
-			v.NT = fmt.Sprintf("%d/%d/%v/%v/%v", c.LocalHold, c.RemoteHold, c.Out, c.OpenConf, c.Steps)
+			v.NT = fmt.Sprintf("%d/%d/%v/%v/%v/%v", c.LocalHold, c.RemoteHold, c.Out, c.OpenConf, c.Steps, c.Prev)
 		}
 		v.Dev = dev
 		return v
@@ -281,6 +344,11 @@ func genHold(rt *rapid.T, label string) int {
 
 func genC06(rt *rapid.T) c06Case {
 	c := c06Case{LocalHold: genHold(rt, "lhold"), RemoteHold: uint16(genHold(rt, "rhold")), Out: rapid.Bool().Draw(rt, "out")}
+	if rapid.IntRange(0, 2).Draw(rt, "withprev") == 0 {
+		for i, k := 0, rapid.IntRange(1, 2).Draw(rt, "nprev"); i < k; i++ {
+			c.Prev = append(c.Prev, c06Prev{RemoteHold: uint16(genHold(rt, "prevhold")), End: pick(rt, "prevend", "fin", "cease")})
+		}
+	}
 	H := c.H()
 	if H > 0 && rapid.IntRange(0, 6).Draw(rt, "oc") == 0 {
 		c.OpenConf = true
